@@ -2,7 +2,7 @@
    Only ExtrOcamlBasic (bool, option, list, pairs, unit -> OCaml natives);
    Z, positive, N, nat stay extracted datatypes; no Extract Constant. *)
 From Coq Require Import Extraction ExtrOcamlBasic.
-From PV Require Import Base Heap Rng NND Diversify SearchGraph.
+From PV Require Import Base Heap Rng NND Diversify SearchGraph RPTree.
 Extraction Language OCaml.
 Set Extraction KeepSingleton.
 Extraction "../ocaml/model.ml"
@@ -16,4 +16,5 @@ Extraction "../ocaml/model.ml"
   NND.apply_graph_updates_low_memory NND.apply_graph_updates_high_memory
   NND.thresholds NND.deheap_graph NND.nn_descent
   Diversify.diversify Diversify.diversify_row Diversify.diversify_csr_row
-  SearchGraph.degree_prune_row SearchGraph.search_graph_chk.
+  SearchGraph.degree_prune_row SearchGraph.search_graph_chk
+  RPTree.make_euclidean_tree RPTree.convert_tree_format RPTree.leaf_rows RPTree.flat_chk RPTree.linked_chk RPTree.descend.
